@@ -1,0 +1,19 @@
+//go:build verif
+
+package common
+
+// Export-only hooks for the verification harness in /verif (build tag "verif").
+
+// VerifSetGlobalCPRNG replaces the process-wide fast random generator by one with a known
+// seed, so that harness runs are reproducible.
+func VerifSetGlobalCPRNG(seed *[32]byte) error {
+	c, err := NewCPRNG(seed)
+	if err != nil {
+		return err
+	}
+	globalCprng = c
+	return nil
+}
+
+// VerifGlobalCPRNGCounter returns the number of keystream blocks handed out so far.
+func VerifGlobalCPRNGCounter() uint64 { return globalCprng.counter }
